@@ -329,6 +329,34 @@ fn enumerate_c08_threads(cli: &Cli, r: &Report) {
     }
 }
 
+fn figure_pairs() -> Vec<(u32, u32)> {
+    let mut v = Vec::new();
+    for n in [1u32, 2, 3, 16, 65535, 65536, 65537, 1 << 20] {
+        for s in [1u32, 2, 65535, 65536, 65537, 1 << 28, 1 << 31, u32::MAX] {
+            v.push((n, s));
+        }
+    }
+    v
+}
+
+fn check_figures(r: &Report, n: u32, s: u32) {
+    use divan::verif::{InjectedCounter, InjectedSample};
+    let samples: Vec<InjectedSample> = (0..n).map(|i| InjectedSample { duration: 1000 * s as u128 + (i % 7) as u128, tally: None }).collect();
+    let counters: [InjectedCounter; 4] = Default::default();
+    let got = std::panic::catch_unwind(|| divan::verif::stats_of(s, &samples, &counters)).unwrap_or_else(|e| Err(mc_seq::panic_text(e)));
+    r.case(1);
+    let want = (n, n as u64 * s as u64);
+    let ok = matches!(&got, Ok(st) if (st.sample_count, st.iter_count) == want);
+    r.outcome(format!("figures:{ok}"));
+    if !ok {
+        r.violation(Violation {
+            sig: json!({"check":"figures","class": if got.is_ok() { "wrong" } else { "panic" }}),
+            text: format!("{n} recorded samples of {s} iterations each are reported as {:?}, expected samples = {} and iters = {}", got.map(|st| (st.sample_count, st.iter_count)), want.0, want.1),
+            case: json!({"kind":"figures","n":n,"s":s}),
+        });
+    }
+}
+
 fn enumerate_c03(cli: &Cli, r: &Report) {
     let mut index = 0u64;
     let ns: Vec<Option<u32>> = if cli.thorough {
@@ -361,7 +389,16 @@ fn enumerate_c03(cli: &Cli, r: &Report) {
             }
         }
     }
+    // the samples / iters figures for counts no loop run can afford: n recorded samples of size s are placed
+    // in a real context and the real compute_stats must report n and n * s (a 64-bit figure)
+    for (n, s) in figure_pairs() {
+        index += 1;
+        if cli.mine(index) {
+            check_figures(r, n, s);
+        }
+    }
     r.set_bounds(json!({
+        "figures": "samples / iters of injected collections: n in {1,2,3,16,65535,65536,65537,1048576} x s in {1,2,65535,65536,65537,2^28,2^31,2^32-1}",
         "sample_count": ns, "sample_size": ss, "modes": ["bench","test"], "max_time": ["unset", 0],
         "entries": "all six entry points over 9 (entry, shape) combinations", "threads": "T=1 (T in {2,3} under loom, engine L); _local with configured 1,2,4"
     }));
@@ -379,6 +416,10 @@ fn main() {
     }
     let r = Report::new(&format!("loopmc-{prop}"), &cli);
     if let Some(case) = &cli.case {
+        if case["kind"] == "figures" {
+            check_figures(&r, case["n"].as_u64().unwrap() as u32, case["s"].as_u64().unwrap() as u32);
+            r.emit();
+        }
         let case: LoopCase = serde_json::from_value(case.clone()).expect("LoopCase");
         check(&r, &prop, &case, 0);
         r.emit();
